@@ -233,7 +233,7 @@ class Unkeyed(Job):
         for d in xfer(t):
             try:
                 list(pr.add_and_unframe(d))
-            except CX.Disconnect:
+            except Exception:
                 # a peer holding another key cannot validate our handshake; it answers with its own anyway
                 pr._framer._can_send_frames = True
                 pr._send_handshake()
